@@ -92,9 +92,11 @@ def snap_feature(f):
 
 def snap_cat(c):
     if isinstance(c, Category):
+        d = getattr(c, '__dict__', {})
+        extra = tuple((k, id(v), repr(v)) for k, v in d.items() if k not in ('left', 'right', 'slash', 'base', 'feature'))
         if c.is_functor:
-            return ('F', id(c), type(c).__name__, snap_cat(c.left), c.slash, snap_cat(c.right))
-        return ('A', id(c), type(c).__name__, c.base, snap_feature(c.feature))
+            return ('F', id(c), type(c).__name__, tuple(d), snap_cat(c.left), c.slash, snap_cat(c.right), extra)
+        return ('A', id(c), type(c).__name__, tuple(d), c.base, snap_feature(c.feature), extra)
     return ('?', id(c), repr(c))
 
 
